@@ -123,7 +123,26 @@ func linear(stmts []ast.Stmt) []string {
 		case *ast.BranchStmt:
 			out = append(out, x.Tok.String())
 		case *ast.DeclStmt:
-			out = append(out, "decl")
+			gd, ok := x.Decl.(*ast.GenDecl)
+			if !ok {
+				out = append(out, "decl")
+				continue
+			}
+			for _, sp := range gd.Specs {
+				vs, ok := sp.(*ast.ValueSpec)
+				if !ok {
+					out = append(out, "decl")
+					continue
+				}
+				var l, r []string
+				for _, n := range vs.Names {
+					l = append(l, n.Name)
+				}
+				for _, e := range vs.Values {
+					r = append(r, srcText(e))
+				}
+				out = append(out, "var "+strings.Join(l, ",")+"="+strings.Join(r, ","))
+			}
 		case *ast.IncDecStmt:
 			out = append(out, "incdec "+srcText(x.X))
 		default:
@@ -347,6 +366,31 @@ func genPgCoder() {
 	for _, fn := range []string{"onPrepare", "onExecute", "onDeallocate"} {
 		lf.def("sql"+strings.ToUpper(fn[2:3])+fn[3:]+"Calls", "List String", strList(registryCalls(fn)),
 			"decryptor/postgresql/prepared_statements_sql_observer.go: PreparedStatementsQuery."+fn+" – calls on the registry / the inner query observer in source order")
+	}
+	if fd := funcDecl("decryptor/postgresql/prepared_statements_sql_observer.go", "PreparedStatementsQuery", "onPrepare"); fd != nil {
+		lf.def("sqlPrepare", "List String", strList(linear(fd.Body.List)),
+			"decryptor/postgresql/prepared_statements_sql_observer.go: PreparedStatementsQuery.onPrepare – statements in source order (log calls dropped)")
+	}
+	// the statement resolution of the row handler: from the pending query text to the column settings
+	if fd := funcDecl(prel, "PgProxy", "handleQueryDataPacket"); fd != nil {
+		var part []ast.Stmt
+		on := false
+		for _, st := range fd.Body.List {
+			if as, ok := st.(*ast.AssignStmt); ok && len(as.Lhs) == 1 && srcText(as.Lhs[0]) == "sqlQuery" {
+				on = true
+			}
+			if _, ok := st.(*ast.ForStmt); ok && on {
+				break
+			}
+			if on {
+				part = append(part, st)
+			}
+		}
+		if len(part) == 0 {
+			fail("%s: PgProxy.handleQueryDataPacket: the resolution of the pending statement (sqlQuery := …) was not found", prel)
+		}
+		lf.def("pgRowResolution", "List String", strList(linear(part)),
+			prel+": PgProxy.handleQueryDataPacket – the statements from `sqlQuery := …` up to the loop over the columns (log calls dropped)")
 	}
 	if fd := funcDecl("decryptor/postgresql/prepared_statements_sql_observer.go", "PreparedStatementsQuery", "onDeallocate"); fd != nil {
 		lf.def("sqlDeallocate", "List String", strList(linear(fd.Body.List)),
